@@ -15,6 +15,7 @@ def swarm(rng):
     cfg.update({"n_spaces": 2, "n_cells": 2, "n_refs": 1, "n_steps": rng.choice([12, 20, 30]),
                 "p_registry": rng.choice([0.3, 0.5]), "cross_refs": rng.random() < 0.5, "p_sformula": 0.2,
                 "p_objref": 0.0, "recalc": False})
+    cfg["cross_gadget"] = cfg["cross_refs"] and rng.random() < 0.5
     return cfg
 
 
@@ -296,6 +297,8 @@ class Session:
                 return
             if not pairs:
                 return
+            if op.get("prefer"):
+                pairs = [x for x in pairs if x[0].path() == op["prefer"]] or pairs
             base, sub = pairs[op["j"] % len(pairs)]
             same = [x for x in sps if x.path() == base.path() or x.path() == sub.path()]
             t = (same or sps)[op["i"] % len(same or sps)]
@@ -473,6 +476,19 @@ class C19(PropBase):
                 op = ses.gen()
                 if op is not None:
                     step(op)
+                if cfg.get("cross_gadget") and i == cfg["n_steps"] // 3 and len(ses.machs) > 1:
+                    # two open models with the same dotted names below the model, one of them with a sub space: what a
+                    # comparison of names without the model confuses
+                    a, b = ses.machs[0], ses.machs[1]
+                    cells = {"op": "new_cells", "space": "ZB", "name": "g", "is_cached": True,
+                             "formula": {"style": "lambda", "params": [["x", None]], "ret": ["bin", "+", ["p", "x"], ["c", 7]]}}
+                    for mach, ops in ((a, [{"op": "new_space", "parent": "", "name": "ZB", "bases": []}, cells,
+                                           {"op": "new_space", "parent": "", "name": "ZS", "bases": ["ZB"]}]),
+                                      (b, [{"op": "new_space", "parent": "", "name": "ZB", "bases": []}, cells])):
+                        for inner in ops:
+                            step({"op": "in", "m": mach.tag, "inner": inner})
+                    for mode in ("auto", "absolute", "relative"):
+                        step({"op": "cross_ref_sub", "m": a.tag, "to": b.tag, "i": 0, "j": 0, "mode": mode, "prefer": "ZB"})
         else:
             for op in ctx.doc["steps"]:
                 step(op)
